@@ -46,7 +46,12 @@ MANIFEST = dict(
          'as the civil calendar (Model/Cal compared on every day 1970-2100 in thorough); the clock is not in the last '
          'two years of datetime range (NowOK); timers fire at the requested time (the reactor is not modelled: late '
          'timers, and defer raising inside DeferWithLogOnError, are outside); an event belongs to one node (Owned). '
-         'No lower bound on the delay is demanded (a moment earlier today counts as due all day). The due window of '
+         'No lower bound on the delay is demanded (a moment earlier today counts as due all day). Late wake-ups '
+         '(1 s ... minutes, paused pipeline) are exercised on the real code only as long as they fall on the day of '
+         'the moment: a wake-up served after that midnight loses the occurrence on the code as it is (observed: time '
+         'of day 23:59:59 with a timer 1 s late), which is outside what is demanded here. Whole engines are loaded '
+         'through scan.for_factories / schedule.build / schedule.periodics with scan.REGISTRY emptied per engine '
+         '(one engine = one process). The due window of '
          'the monitor is the documented 300 s. Duplicate queue entries when two events of one node are due together '
          'are not part of this property.',
     technique='Lean 4 proof (case analysis over the accepted shape, arithmetic over a proved calendar, invariants '
@@ -187,6 +192,9 @@ class Real:
         self.appended = []
         chron.append = self.appended.append
         sched.log.disabled = True
+        import logging
+
+        logging.getLogger('dawgie.util').setLevel(logging.ERROR)
         dawgie.context.git_rev = 'rev0'
 
         def task(*_a):
@@ -822,9 +830,11 @@ def canon_defer(x):
 
 
 # ------------------------------------------------------------------ part D: the pipeline stays up
-def run_uptime(rl, res, sc, tag, now_us, horizon_us, monitor=True):
+def run_uptime(rl, res, sc, tag, now_us, horizon_us, monitor=True, late_us=0, paused_near=None, paused_hits=0):
     """boot at now, follow the timers the real defer arms, answer every queued unit through the real
-    schedule.complete; returns the instants at which `tag` was queued"""
+    schedule.complete; returns the instants at which `tag` was queued.  `late_us`: every timer is served that
+    much later than requested (busy reactor); `paused_near`/`paused_hits`: the pipeline is found paused by the
+    first `paused_hits` wake-ups that fall within a minute of the instant `paused_near`"""
     nodes, _events = build_sched(rl, sc)
     sched, State = rl.sched, rl.State
     fired, t, steps = [], now_us, 0
@@ -834,6 +844,11 @@ def run_uptime(rl, res, sc, tag, now_us, horizon_us, monitor=True):
         rl.clock.now = from_us(t)
         rl.timers = []
         before = [q.tag for q in sched.que]
+        if paused_near is not None and paused_hits > 0 and abs(t - paused_near) <= 60 * 10 ** 6:
+            sched.pipeline_paused = True
+            paused_hits -= 1
+        else:
+            sched.pipeline_paused = False
         with watchdog(5.0):
             call()
         newly = [q for q in sched.que if q.tag not in before]
@@ -853,7 +868,7 @@ def run_uptime(rl, res, sc, tag, now_us, horizon_us, monitor=True):
         if delay <= 0:
             break
         call = (lambda cb=cb, cb_args=cb_args: cb(*cb_args))
-        t += delay * 10 ** 6
+        t += delay * 10 ** 6 + late_us
     return fired
 
 
@@ -875,9 +890,29 @@ def part_uptime(ctx, res, r, thorough):
                               r.randrange(60), r.randrange(60), r.randrange(10 ** 6), tzinfo=_dt.UTC))
         asp = r.random() < 0.3
         cases.append((spec, asp, r.choice([['T1'], ['T1', 'T2']]), now))
-    lines, impl = [], []
+    cases = [c + (0, 0) for c in cases]
+    # wake-ups served late (busy reactor: 1 s ... minutes) or finding the pipeline paused around the moment; the
+    # boot instant is placed so that the event is not yet due at boot and the timer path is taken
+    late_specs = [(mk_spec('dom', 15, time=(3, 0, 0)), us(_dt.datetime(2026, 1, 10, tzinfo=_dt.UTC))),
+                  (mk_spec('dom', 31, time=(0, 0, 0)), us(_dt.datetime(2024, 1, 30, 22, tzinfo=_dt.UTC))),
+                  (mk_spec('dow', 2, time=(12, 30, 15)), us(_dt.datetime(2025, 6, 1, 8, tzinfo=_dt.UTC)))]
+    for _ in range(60 if thorough else 8):
+        kind = r.choice(['dom', 'dom', 'dow'])
+        spec = mk_spec(kind, r.randrange(7) if kind == 'dow' else r.choice([1, 15, 28, 29, 30, 31, r.randrange(1, 32)]),
+                       time=r.choice(tods))
+        late_specs.append((spec, us(_dt.datetime(r.randrange(2023, 2029), r.randrange(1, 13), r.randrange(1, 29),
+                                                 r.randrange(24), r.randrange(60), r.randrange(60), tzinfo=_dt.UTC))))
+    for spec, now in late_specs:
+        for late, hits in ((10 ** 6, 0), (2 * 10 ** 6, 0), (37 * 10 ** 6, 0), (240 * 10 ** 6, 0), (0, 1), (0, 3),
+                           (10 ** 6, 2)):
+            nxt = us(next_at_or_after(spec, from_us(now)))
+            # the late wake-up must still fall on the day of the moment: past midnight the occurrence is over for
+            # the code as it is (reported as an observation, not demanded here)
+            if nxt - now > 2 * WINDOW_US and nxt % DAY + late + hits * 10 ** 7 + 2 * 10 ** 6 < DAY:
+                cases.append((spec, r.random() < 0.3, ['T1'], now, late, hits))
+    lines, impl, compare = [], [], []
     seen_known = False
-    for spec, asp, targets, now_us in cases:
+    for spec, asp, targets, now_us, late_us, paused_hits in cases:
         tag = 'net.alg'
         sc = {'nodes': [{'tag': tag, 'asp': asp, 'level': 0, 'status': 'initial', 'todo': [], 'doing': [],
                          'events': [{'ref': 1, 'spec': spec}]}],
@@ -885,14 +920,19 @@ def part_uptime(ctx, res, r, thorough):
         first = us(first_occurrence(spec, from_us(now_us)))
         period = 7 * DAY if spec['kind'] == 'dow' else 62 * DAY
         horizon = max(first, now_us) + 2 * period + DAY
-        rep = {'kind': 'uptime', 'scenario': sc, 'tag': tag, 'now': now_us, 'horizon': horizon}
+        nxt = us(next_at_or_after(spec, from_us(now_us)))
+        slack = late_us + paused_hits * 10 * 10 ** 6   # a paused pipeline retries every 10 s
+        rep = {'kind': 'uptime', 'scenario': sc, 'tag': tag, 'now': now_us, 'horizon': horizon,
+               'late_us': late_us, 'paused_hits': paused_hits}
+        exact = late_us == 0 and paused_hits == 0    # only these are the model's runs
         if HANGS['n'] >= MAX_HANGS:
             res.count('uptime:skipped-after-hangs')
             impl.append(None)
             lines.append(common.sx(['timer', 'uptime', tag, horizon, now_us, sched_sx(sc)]))
             continue
         try:
-            fired = run_uptime(rl, res, sc, tag, now_us, horizon)
+            fired = run_uptime(rl, res, sc, tag, now_us, horizon, late_us=late_us, paused_near=nxt,
+                               paused_hits=paused_hits)
         except Hang:
             HANGS['n'] += 1
             res.hit('C20:defer-hangs', f'{describe(spec)}: defer() does not return in a pipeline booted {from_us(now_us)}', rep)
@@ -900,22 +940,25 @@ def part_uptime(ctx, res, r, thorough):
         except Exception as e:  # pylint: disable=broad-except
             res.hit('C20:uptime-raises', f'the running pipeline raised {type(e).__name__}: {e}', rep)
             fired = ['raised']
-        impl.append(fired)
+        impl.append(fired if exact else None)
         lines.append(common.sx(['timer', 'uptime', tag, horizon, now_us, sched_sx(sc)]))
-        res.case(('uptime', describe(spec), now_us, tuple(fired)), nontrivial=bool(fired),
+        res.case(('uptime', describe(spec), now_us, late_us, paused_hits, tuple(fired)), nontrivial=bool(fired),
                  sample={'event': describe(spec), 'boot': str(from_us(now_us)),
                          'queued_at': [str(from_us(f)) for f in fired if isinstance(f, int)]})
-        res.count('uptime:firings=%d' % len(fired))
+        res.count('uptime:firings=%d' % len(fired) + ('' if exact else ':late-or-paused'))
         if fired == ['raised']:
             continue
+        how = '' if exact else (f' (timers served {late_us / 10 ** 6:g} s late, pipeline found paused by '
+                                f'{paused_hits} wake-up(s) around the moment)')
         if not fired:
             res.hit('C20:never-fires', f'{describe(spec)}: pipeline up from {from_us(now_us)} for '
-                    f'{(horizon - now_us) // DAY} days, the event was never queued (first occurrence {from_us(first)})', rep)
+                    f'{(horizon - now_us) // DAY} days, the event was never queued (first occurrence {from_us(first)})'
+                    + how, rep)
         else:
-            nxt = us(next_at_or_after(spec, from_us(now_us)))
-            if fired[0] > nxt + WINDOW_US + 10 ** 6:
+            if fired[0] > nxt + slack + WINDOW_US + 10 ** 6:
                 res.hit('C20:first-firing-off', f'{describe(spec)}: booted {from_us(now_us)}, first queued at '
-                        f'{from_us(fired[0])}, more than the firing window after the next occurrence {from_us(nxt)}', rep)
+                        f'{from_us(fired[0])}, more than the firing window after the next occurrence {from_us(nxt)}'
+                        + how, rep)
             elif len(fired) < 2:
                 if not seen_known or len(str(rep)) < 700:
                     res.hit('C20:no-recurrence', f'{describe(spec)}: pipeline up from {from_us(now_us)} for '
@@ -928,6 +971,331 @@ def part_uptime(ctx, res, r, thorough):
                 res.diff('Delay.uptime vs defer/complete under the recorded reactor',
                          {'event': describe(case[0]), 'now': case[3]}, m, i)
         res.traces += len(lines)
+
+
+# ------------------------------------------------------------------ part F: a whole algorithm engine (scan, build, periodics, reload)
+AE_INIT = """
+import dawgie
+
+class Value(dawgie.Value):
+    def __init__(self, v=0):
+        dawgie.Value.__init__(self)
+        self.v = v
+        self._version_ = dawgie.VERSION(1, 0, 0)
+    def features(self):
+        return []
+
+class StateVector(dawgie.StateVector):
+    def __init__(self):
+        dawgie.StateVector.__init__(self)
+        self['x'] = Value()
+        self._version_ = dawgie.VERSION(1, 0, 0)
+    def name(self):
+        return 'sv'
+    def view(self, _caller, visitor):
+        return
+"""
+TASK_INIT = """
+import dawgie
+import dawgie.base
+
+def analysis(prefix: str, ps_hint: int = 0, runid: int = -1
+) -> dawgie.FactoryPlaceholder[dawgie.base.Analysis]:
+    raise NotImplementedError('placeholder')
+
+def events() -> dawgie.FactoryPlaceholder[list[dawgie.EVENT]]:
+    raise NotImplementedError('placeholder')
+
+def regress(prefix: str, ps_hint: int = 0, target: str = '__none__'
+) -> dawgie.FactoryPlaceholder[dawgie.base.Regress]:
+    raise NotImplementedError('placeholder')
+
+def task(prefix: str, ps_hint: int = 0, runid: int = -1, target: str = '__none__'
+) -> dawgie.FactoryPlaceholder[dawgie.base.Task]:
+    raise NotImplementedError('placeholder')
+"""
+ALG_SRC = """
+import %(pkg)s
+import datetime
+import dawgie
+
+class %(cls)s(dawgie.Algorithm):
+    DAWGIE_SCHEDULE = [%(when)s]
+    def __init__(self):
+        dawgie.Algorithm.__init__(self)
+        self._sv = %(pkg)s.StateVector()
+        self._version_ = dawgie.VERSION(1, %(minor)d, 0)
+    def name(self):
+        return '%(name)s'
+    def previous(self):
+        return []
+    def run(self, ds, ps):
+        ds.update()
+    def state_vectors(self):
+        return [self._sv]
+"""
+ASP_SRC = """
+import %(pkg)s
+import datetime
+import dawgie
+
+class %(cls)s(dawgie.Analyzer):
+    DAWGIE_SCHEDULE = [%(when)s]
+    def __init__(self):
+        dawgie.Analyzer.__init__(self)
+        self._sv = %(pkg)s.StateVector()
+        self._version_ = dawgie.VERSION(1, %(minor)d, 0)
+    def name(self):
+        return '%(name)s'
+    def traits(self):
+        return []
+    def run(self, aspects):
+        aspects.ds().update()
+    def state_vectors(self):
+        return [self._sv]
+"""
+ENGINE_N = {'n': 0}
+
+
+def _when_src(spec):
+    t = spec['time']
+    tt = ', time=datetime.time(%d, %d, %d)' % tuple(t) if t else ''
+    k = spec['kind']
+    if k == 'boot':
+        return 'dawgie.schedule(None, None, True)'
+    if k == 'dow':
+        return 'dawgie.schedule(None, None, dow=%d%s)' % (spec['n'], tt)
+    if k == 'dom':
+        return 'dawgie.schedule(None, None, dom=%d%s)' % (spec['n'], tt)
+    return 'dawgie.schedule(None, None, day=datetime.date(%d, %d, %d)%s)' % (tuple(spec['date']) + (tt,))
+
+
+class Engine:
+    """a synthetic new-style algorithm engine on disk, loaded the way FSM._pipeline() does it:
+    scan.for_factories -> schedule.build -> schedule.periodics; the farm is next_job_batch + complete"""
+
+    def __init__(self, rl, desc):
+        import os
+        import tempfile
+
+        import dawgie.pl.scan
+
+        self.rl, self.desc = rl, desc
+        dawgie.pl.scan.REGISTRY.clear()   # every engine stands for a fresh process
+        ENGINE_N['n'] += 1
+        self.pkg = 'c20ae%d_%d' % (os.getpid(), ENGINE_N['n'])
+        self.root = tempfile.mkdtemp(prefix='c20_')
+        self.path = os.path.join(self.root, self.pkg)
+        os.makedirs(os.path.join(self.path, 'alpha'))
+        self._write('__init__.py', AE_INIT)
+        self._write('alpha/__init__.py', TASK_INIT)
+        for i, a in enumerate(desc['algs']):
+            src = ASP_SRC if a['asp'] else ALG_SRC
+            self._write('alpha/%s.py' % a['module'], src % {'pkg': self.pkg, 'cls': a['cls'], 'minor': i + 1,
+                                                            'name': a['name'], 'when': _when_src(a['spec'])},
+                        append=True)
+        sys.path.insert(0, self.root)
+        self.fired = {}   # tag -> [(instant, todo)]
+
+    def _write(self, rel, text, append=False):
+        import os
+
+        with open(os.path.join(self.path, rel), 'at' if append else 'wt', encoding='utf-8') as f:
+            f.write(text)
+
+    def close(self):
+        import shutil
+
+        if self.root in sys.path:
+            sys.path.remove(self.root)
+        for k in [k for k in sys.modules if k == self.pkg or k.startswith(self.pkg + '.')]:
+            del sys.modules[k]
+        shutil.rmtree(self.root, ignore_errors=True)
+        self.rl.sched.que, self.rl.sched.per = [], []
+
+    def load(self):
+        import dawgie.context
+        import dawgie.pl.scan
+
+        d = self.rl.dawgie
+        dawgie.context.ae_base_package, dawgie.context.ae_base_path = self.pkg, self.path
+        facs = dawgie.pl.scan.for_factories(self.path, self.pkg)
+        self.rl.timers = []
+        self.rl.sched.build(facs, [{}, {}, {}], [{}, {}, {}, {}])
+        self.rl.sched.periodics(facs[d.Factories.events])
+
+    def reload(self):
+        import importlib
+
+        for name in sorted(n for n in sys.modules if n == self.pkg or n.startswith(self.pkg + '.')):
+            importlib.reload(sys.modules[name])
+
+    def farm(self, t):
+        """records what is queued, releases it and answers every unit"""
+        sched, State = self.rl.sched, self.rl.State
+        newly = []
+        for _ in range(10):
+            for n in sched.que:
+                if len(n.get('todo')):
+                    self.fired.setdefault(n.tag, []).append((t, sorted(n.get('todo'))))
+                    newly.append(n.tag)
+            batch = sched.next_job_batch()
+            if not batch:
+                break
+            for job in batch:
+                job.set('status', State.running)
+                targets = sorted(job.get('do'))
+                job.get('do').clear()
+                for x in targets:
+                    sched.complete(job, 1, x, {'started': from_us(t)}, State.success)
+        return newly
+
+
+def run_engine(rl, res, desc):
+    """desc: {'algs': [{'module','cls','name','asp','spec'}], 'targets', 'start', 'days', 'reloads'}"""
+    rep = {'kind': 'engine', 'desc': desc}
+    start = desc['start']
+    rl.targets = list(desc['targets'])
+    rl.sched.booted[:] = []
+    rl.sched.pipeline_paused = False
+    eng = Engine(rl, desc)
+    try:
+        rl.clock.now = from_us(start)
+        with watchdog(20.0):
+            eng.load()
+        at_boot = eng.farm(start)
+        # a boot event fires once per process: also when the engine is loaded again in the same process
+        boots = ['alpha.' + a['name'] for a in desc['algs'] if a['spec']['kind'] == 'boot']
+        missing = [b for b in boots if b not in at_boot]
+        if missing:
+            res.hit('C20:boot-never', f'at boot the boot event(s) of {missing} queued nothing (queued: {sorted(set(at_boot))})', rep)
+        t = start
+        for k in range(desc.get('reloads', 0)):
+            t += 3600 * 10 ** 6
+            rl.clock.now = from_us(t)
+            with watchdog(20.0):
+                eng.reload()
+                eng.load()
+            again = [x for x in eng.farm(t) if x in boots]
+            if again:
+                res.hit('C20:boot-refires', f'reload #{k + 1} in the same process queued the boot algorithm(s) '
+                        f'{sorted(set(again))} again (they ran at boot: {sorted(set(at_boot))})', rep)
+                break
+        # every declared timed event reaches the scheduler and is queued at its first moment
+        horizon = t + desc['days'] * DAY
+        steps = 0
+        while rl.timers and steps < 300:
+            steps += 1
+            delay, cb, cb_args = rl.timers[-1]
+            rl.timers = []
+            if delay <= 0:
+                break
+            t += delay * 10 ** 6
+            if t > horizon:
+                break
+            rl.clock.now = from_us(t)
+            with watchdog(5.0):
+                cb(*cb_args)
+            eng.farm(t)
+        last_load = start + desc.get('reloads', 0) * 3600 * 10 ** 6   # timers are followed from the last load on
+        for a in desc['algs']:
+            if a['spec']['kind'] not in ('dow', 'dom'):
+                continue
+            tag = 'alpha.' + a['name']
+            nxt = us(next_at_or_after(a['spec'], from_us(last_load)))
+            if nxt + DAY > horizon:
+                continue
+            got = eng.fired.get(tag, [])
+            want = ['__all__'] if a['asp'] else sorted(desc['targets'])
+            if not got:
+                per = sorted({p.tag for p in rl.sched.per})
+                res.hit('C20:never-fires', f'{tag} ({a["module"]}.{a["cls"]}) declares {describe(a["spec"])}; its moment '
+                        f'{from_us(nxt)} came while the pipeline was up but the algorithm was never queued '
+                        f'(nodes with timer events: {per})', rep)
+            elif got[0][0] > nxt + WINDOW_US + 10 ** 6:
+                res.hit('C20:first-firing-off', f'{tag}: first queued at {from_us(got[0][0])}, more than the firing window '
+                        f'after its moment {from_us(nxt)}', rep)
+            elif any(x not in got[0][1] for x in want):
+                res.hit('C20:due-not-queued', f'{tag}: queued for {got[0][1]}, expected {want}', rep)
+        res.case(('engine', str(desc), str(sorted(eng.fired.items()))), nontrivial=bool(eng.fired),
+                 sample={'engine': [a['module'] + '.' + a['cls'] + ':' + describe(a['spec']) for a in desc['algs']],
+                         'queued': {k: str(from_us(v[0][0])) for k, v in eng.fired.items()}})
+        res.count('engine:algs=%d:reloads=%d' % (len(desc['algs']), desc.get('reloads', 0)))
+    except Hang:
+        HANGS['n'] += 1
+        res.hit('C20:defer-hangs', 'loading or running the engine does not return', rep)
+    finally:
+        eng.close()
+
+
+def engine_cases(r, thorough):
+    def alg(module, cls, name, spec, asp=False):
+        return {'module': module, 'cls': cls, 'name': name, 'asp': asp, 'spec': spec}
+
+    mon = us(_dt.datetime(2024, 5, 6, 12, tzinfo=_dt.UTC))
+    out = [
+        # boot work, then the engine is updated and loaded again in the same process (twice)
+        {'algs': [alg('bot', 'Ingest', 'ingest', mk_spec('boot', time=None)),
+                  alg('bot', 'Survey', 'survey', mk_spec('boot', time=None), asp=True)],
+         'targets': ['A', 'B'], 'start': mon, 'days': 1, 'reloads': 2},
+        # a task package split over modules whose classes happen to share a name
+        {'algs': [alg('daily', 'Monitor', 'quicklook', mk_spec('dow', 2, time=(3, 0, 0))),
+                  alg('monthly', 'Monitor', 'deepcheck', mk_spec('dom', 1, time=(4, 0, 0))),
+                  alg('review', 'Summary', 'summary', mk_spec('dow', 4, time=(5, 0, 0)), asp=True)],
+         'targets': ['A', 'B'], 'start': mon, 'days': 40, 'reloads': 0},
+        # boot and timed events together, several classes in one module
+        {'algs': [alg('bot', 'Ingest', 'ingest', mk_spec('boot', time=None)),
+                  alg('bot', 'Monitor', 'weekly', mk_spec('dow', 0, time=(12, 30, 15))),
+                  alg('other', 'Monitor', 'midmonth', mk_spec('dom', 15, time=(0, 0, 0)))],
+         'targets': ['A'], 'start': mon, 'days': 45, 'reloads': 1},
+    ]
+    tods = [(0, 0, 0), (3, 0, 0), (12, 30, 15), (22, 0, 0)]
+    for _ in range(6 if thorough else 1):
+        n = r.choice([2, 3, 4])
+        names = r.sample(['Monitor', 'Monitor', 'Engine', 'Engine', 'Check'], n)
+        algs = []
+        for i, cls in enumerate(names):
+            kind = r.choice(['dow', 'dom', 'boot'])
+            spec = (mk_spec('boot', time=None) if kind == 'boot' else
+                    mk_spec(kind, r.randrange(7) if kind == 'dow' else r.choice([1, 15, 28, 29, 30, 31]), time=r.choice(tods)))
+            algs.append(alg('m%d' % i, cls, 'alg%d' % i, spec, asp=r.random() < 0.25))
+        out.append({'algs': algs, 'targets': ['A', 'B'][: r.choice([1, 2])],
+                    'start': us(_dt.datetime(r.randrange(2023, 2029), r.randrange(1, 13), r.randrange(1, 29),
+                                             r.randrange(24), 17, 5, tzinfo=_dt.UTC)),
+                    'days': 70, 'reloads': r.choice([0, 1])})
+    return out
+
+
+def load_engine_corpus():
+    import json
+    import os
+
+    d = os.path.join(common.VERIF, 'corpus', 'C20')
+    out = []
+    if os.path.isdir(d):
+        for f in sorted(os.listdir(d)):
+            if f.endswith('.json'):
+                c = json.load(open(os.path.join(d, f)))
+                if c.get('kind') == 'engine':
+                    out.append(c['desc'])
+    return out
+
+
+def part_engine(res, r, thorough):
+    rl = real()
+    seen = []
+    for desc in load_engine_corpus() + engine_cases(r, thorough):
+        if desc in seen:
+            continue
+        seen.append(desc)
+        if HANGS['n'] >= MAX_HANGS:
+            res.count('engine:skipped-after-hangs')
+            continue
+        try:
+            run_engine(rl, res, desc)
+        except Exception as e:  # pylint: disable=broad-except
+            res.hit('C20:engine-raises', f'loading / running a compliant engine raised {type(e).__name__}: {e}',
+                    {'kind': 'engine', 'desc': desc})
 
 
 # ------------------------------------------------------------------ part E: generated definitions, calendar
@@ -974,10 +1342,14 @@ def run(ctx, res):
                 'accepted one evaluated with the real _delay; defer on generated schedules '
                 '(1-4 nodes, 1-3 events each, all statuses, duplicates in per, paused, 0-3 targets) with the clock placed '
                 'around a designated moment (±1 µs, ±0.5 s, 299/300/301 s, hours, days); up-time simulations of the real '
-                'defer/complete following the timers they arm; non-trivial = a delay was computed / a node was queued / '
+                'defer/complete following the timers they arm (also with timers served 1 s ... minutes late and a pipeline '
+                'found paused around the moment); whole synthetic engines on disk through scan.for_factories, schedule.build '
+                'and schedule.periodics (same-named classes in several modules, boot work followed by reloads in the same '
+                'process); non-trivial = a delay was computed / a node was queued / '
                 'the event fired; distinct by canonical observation')
     res.assumptions = list(TRUSTED)
     part_uptime(ctx, res, r, thorough)
+    part_engine(res, r, thorough)
     part_defer(ctx, res, r, thorough)
     part_shape(ctx, res)
     part_accepted(res, r)
@@ -999,6 +1371,8 @@ def _replay(rep, res):
         _res, hits = _sweep_chunk((inp['spec'], [inp['now']]))
         for sig, what, rp in hits:
             res.hit(sig, what, rp)
+    elif inp['kind'] == 'engine':
+        run_engine(rl, res, inp['desc'])
     elif inp['kind'] == 'accepted-spec':
         check_accepted(rl, res, inp['fields'], [inp['now']])
     elif inp['kind'] == 'defer':
@@ -1006,10 +1380,12 @@ def _replay(rep, res):
     elif inp['kind'] == 'uptime':
         sc, tag = inp['scenario'], inp['tag']
         spec = sc['nodes'][0]['events'][0]['spec']
-        fired = run_uptime(rl, res, sc, tag, inp['now'], inp['horizon'])
+        nxt = us(next_at_or_after(spec, from_us(inp['now'])))
+        late, hits = inp.get('late_us', 0), inp.get('paused_hits', 0)
+        fired = run_uptime(rl, res, sc, tag, inp['now'], inp['horizon'], late_us=late, paused_near=nxt, paused_hits=hits)
         if not fired:
             res.hit('C20:never-fires', f'{describe(spec)}: never queued', inp)
-        elif fired[0] > us(next_at_or_after(spec, from_us(inp['now']))) + WINDOW_US + 10 ** 6:
+        elif fired[0] > nxt + late + hits * 10 ** 7 + WINDOW_US + 10 ** 6:
             res.hit('C20:first-firing-off', f'{describe(spec)}: first queued at {from_us(fired[0])}', inp)
         elif len(fired) < 2:
             res.hit('C20:no-recurrence', f'{describe(spec)}: queued at {from_us(fired[0])} and never again', inp)
